@@ -79,7 +79,11 @@ func genInput(t *rapid.T) Input {
 	in := Input{Mode: []string{"rand", "repeat", "mixed", "zero"}[rapid.IntRange(0, 3).Draw(t, "mode")], Seed: rapid.Uint64().Draw(t, "seed")}
 	in.N = []int{0, 1, 2, 15, 16, 100, 1000, 4096, 65535, 65536, 65537}[rapid.IntRange(0, 10).Draw(t, "nk")]
 	if rapid.Bool().Draw(t, "nrand") {
-		in.N = rapid.IntRange(0, kit.Pick(70000, 1<<20)).Draw(t, "n")
+		limit := kit.Pick(70000, 1<<20)
+		if kit.RaceEnabled {
+			limit = 70000 // histories of several steps replayed on several goroutines: gzip / brotli of 1 MiB under the race detector take minutes
+		}
+		in.N = rapid.IntRange(0, limit).Draw(t, "n")
 	}
 	in.Motif = rapid.SliceOfN(rapid.Byte(), 1, 9).Draw(t, "motif")
 	return in
